@@ -2,7 +2,7 @@
 (* Validation of traces recorded from the real document update path (harness/db/c05_docupdate_test.go).
    Lines:
      {a:"Reset", beh, allow, n, tomb, nw, iseq, S}      the initial document has been created by real writes
-     {a:"Begin"|"RC"|"Cas"|"Ack", w, k, p, S}            S = snapshot of the REAL state after the step:
+     {a:"Begin"|"RC"|"Cas"|"Restamp"|"Ack", w, k, p, S}            S = snapshot of the REAL state after the step:
      {a:"Quiesce", feed, S}                                cas (rank), tree [[rev, parent, deleted]], cur, seq, unused, recent   (raw _sync)
      {a:"Abort"}                                           last, rel (allocator / _sync:unusedSeq docs), pc, kind, parg, res (per writer)
    Pass P (PSpec): observable variables := logged real state, ghosts by Ghost*, hidden writer locals untouched.  The C05
@@ -17,6 +17,7 @@
 EXTENDS DocUpdate, TraceLib
 
 WSets == {{1}}
+WSetsNoAhead == {{}}
 VARIABLES l, bi, diverged
 tvars == <<vars, l, bi, diverged>>
 
@@ -41,9 +42,9 @@ Logged == LoggedBucket /\ LoggedAlloc /\ LoggedW
 TInit == Init /\ l = 1 /\ bi = -1 /\ diverged = FALSE
 
 Reset == /\ Ev("Reset")
-         /\ allow' = S.allow /\ initLen' = S.n /\ initTomb' = S.tomb /\ ws' = 1..S.nw
+         /\ allow' = S.allow /\ initLen' = S.n /\ initTomb' = S.tomb /\ ws' = 1..S.nw /\ aheadW' = SetOf(S.ahead)
          /\ Logged
-         /\ match' = [w \in Writers |-> 0] /\ ph' = [w \in Writers |-> <<>>] /\ att' = [w \in Writers |-> 0] /\ loc' = [w \in Writers |-> NoLoc]
+         /\ match' = [w \in Writers |-> 0] /\ ph' = [w \in Writers |-> <<>>] /\ att' = [w \in Writers |-> 0] /\ loc' = [w \in Writers |-> NoLoc] /\ cc' = [w \in Writers |-> -1]
          /\ dso' = [w \in Writers |-> 0] /\ uo' = [w \in Writers |-> <<>>] /\ dev' = {} /\ top' = [seq |-> S.seq, rev |-> S.cur] /\ lost' = {} /\ backIdx' = {}
          /\ feed' = <<>> /\ quiesced' = FALSE
          /\ docSeqs' = <<>> /\ onDoc' = SetOf(S.iseq) /\ initSeq' = [i \in 1..Len(S.iseq) |-> S.iseq[i]]
@@ -59,10 +60,11 @@ PStep(a) == Ev(a) /\ Logged /\ UNCHANGED <<hidden, fd, hist, bi, diverged>>
 PBegin   == PStep("Begin") /\ GhostBegin(S.w)
 PRC      == PStep("RC")    /\ GhostReadAndCompute(S.w)
 PCas     == PStep("Cas")   /\ GhostCasWrite(S.w)
+PRestamp == PStep("Restamp") /\ GhostRestamp(S.w)
 PAck     == PStep("Ack")   /\ GhostAck(S.w)
 PQuiesce == Ev("Quiesce") /\ Logged /\ feed' = FeedOf(S.feed) /\ quiesced' = TRUE /\ UNCHANGED <<hidden, hist, bi, diverged>> /\ GhostQuiesce
 PAbort   == Ev("Abort") /\ UNCHANGED <<vars, bi, diverged>>
-PNext == Reset \/ PAbort \/ PBegin \/ PRC \/ PCas \/ PAck \/ PQuiesce
+PNext == Reset \/ PAbort \/ PBegin \/ PRC \/ PCas \/ PRestamp \/ PAck \/ PQuiesce
 PSpec == TInit /\ [][PNext]_tvars
 
 (* the property statement, predicate by predicate, on the recorded real state *)
@@ -83,10 +85,11 @@ CReset   == Reset /\ ResetShape
 CBegin   == ~diverged /\ Ev("Begin") /\ BeginOK(S.w, S.k, S.p) /\ ImplBegin(S.w, S.k, S.p) /\ Logged /\ GhostBegin(S.w) /\ CUnch
 CRC      == ~diverged /\ Ev("RC")  /\ pc[S.w] = "begun" /\ ImplReadAndCompute(S.w) /\ Logged /\ GhostReadAndCompute(S.w) /\ CUnch
 CCas     == ~diverged /\ Ev("Cas") /\ pc[S.w] = "computed" /\ ImplCasWrite(S.w) /\ Logged /\ GhostCasWrite(S.w) /\ CUnch
+CRestamp == ~diverged /\ Ev("Restamp") /\ pc[S.w] = "restamp" /\ ImplRestamp(S.w) /\ Logged /\ GhostRestamp(S.w) /\ CUnch
 CAck     == ~diverged /\ Ev("Ack") /\ pc[S.w] \in {"committed", "failed", "errored"} /\ ImplAck(S.w) /\ Logged /\ GhostAck(S.w) /\ CUnch
 CQuiesce == /\ ~diverged /\ Ev("Quiesce") /\ ~quiesced /\ \A w \in ws : pc[w] = "done"
             /\ ImplQuiesce /\ Logged /\ feed' = FeedOf(S.feed) /\ GhostQuiesce /\ CUnch
-CAny     == CBegin \/ CRC \/ CCas \/ CAck \/ CQuiesce
+CAny     == CBegin \/ CRC \/ CCas \/ CRestamp \/ CAck \/ CQuiesce
 (* a line no spec action explains (or a harness abort): the rest of the behaviour is skipped, validation resumes at the next Reset *)
 CDiverge == /\ ~diverged /\ l <= TraceLen /\ S.a # "Reset" /\ ~ENABLED CAny
             /\ diverged' = TRUE /\ l' = l + 1 /\ UNCHANGED <<vars, bi>>
